@@ -680,6 +680,9 @@ ALPHA_SMALL = ["to", "with", "from", "per", "via", "as", "at", "in", "of", "is",
                "re", "+-", "by", "==", ">=",
                "zz", "a", "f", "ax", "me", ".p.q", "p.q", "n.m.", "5", "1j", '"s t"', "frame", "framer",
                "done", "updated", "running", "elapsed", "goal", "all", "aux"]
+# tiny alphabet for the deepest enumerations (3 free tokens; 2 free tokens after every command prefix)
+ALPHA_TINY = ["to", "with", "from", "as", "at", "in", "of", "is", "if", "into", "and", "not", "==", "+-",
+              "zz", "a", ".p.q", "5", "1j", '"s t"', "frame", "me"]
 VERB_EXTRA = dict(
     server=["rx", "tx", "host:1", "h:p", "a:b:c", "inactive", "slave", "front"],
     logger=["flush", "keep", "cycle", "size", "reuse", "inactive", "slave", "back"],
@@ -701,12 +704,13 @@ CORPUS = odict([
     ("house", ["house h2"]),
     ("init", ["init .i.a with 5", "init .i.b with x 1 y 2", "init .i.c from .p.q",
               "init x y in .i.d from x y in .p.r", "init value in .i.e from .p.q", "init .i.f to 5"]),
-    ("server", ["server s at 0.5 be inactive rx localhost:5001 tx localhost:5002 in front to /tmp/verif-nosrv "
+    ("server", ["server s", "server s rx localhost:5001 tx localhost:5002", "server s for y in .p.r",
+                "server s per alpha 1", "server s at 0.5 be inactive rx localhost:5001 tx localhost:5002 in front to /tmp/verif-nosrv "
                 "per alpha 1 for y in .p.r"]),
-    ("logger", ["logger l2 to /tmp/verif-nolog at 0.25 be inactive in back flush 2 keep 3 cycle 10 size 100 reuse"]),
+    ("logger", ["logger l2", "logger l2 keep 3", "logger l2 flush 2 size 100", "logger l2 to /tmp/verif-nolog at 0.25 be inactive in back flush 2 keep 3 cycle 10 size 100 reuse"]),
     ("log", ["log two to ftwo as binary on change", "log two on streak"]),
     ("loggee", ["loggee x y in .p.r as pr .p.q as pq", "loggee .p.q"]),
-    ("framer", ["framer g be active at 0.5 first ga via .g.node in front", "framer g be aux via stuff of me"]),
+    ("framer", ["framer g", "framer g at 0.5", "framer g be active at 0.5 first ga via .g.node in front", "framer g be aux via stuff of me"]),
     ("first", ["first a"]),
     ("frame", ["frame z in a via .z.node", "frame z via stuff of me"]),
     ("over", ["over c"]),
@@ -747,7 +751,7 @@ CORPUS = odict([
 
 
 def alphabet_for(verb, small=False):
-    base = ALPHA_SMALL if small else ALPHABET
+    base = ALPHA_TINY if small == "tiny" else ALPHA_SMALL if small else ALPHABET
     out = list(base)
     for t in VERB_EXTRA.get(verb, []):
         if t not in out:
